@@ -476,7 +476,7 @@ def call (ctx : Ctx α) (k : Kind) (na : Bool) (args : List (Val α)) (vals : Li
       match ← aa with
       | [a, b] => PyNum.pow a b
       | _ => throw Err.valueError
-  | .log10 => do
+  | .log10 => do   -- `getattr(backend, 'log10')(arg)`, or `backend.log(arg) / backend.log(10)` for a backend without log10 (sympy)
       match ← aa with
       | [a] => PyNum.log10 a
       | _ => throw Err.valueError
@@ -507,6 +507,7 @@ def call (ctx : Ctx α) (k : Kind) (na : Bool) (args : List (Val α)) (vals : Li
           pure (a * (← PyNum.exp q))
       | _ => throw Err.valueError
   | .eyring => do          -- c0 * T * backend.exp(-c1 / T) * conc0 ** (1 - kwargs["reaction"].order())
+                           -- (`c1.simplified` first when c1 is a quantity, as in Arrhenius: no effect on plain numbers)
       match ← aa with
       | [c0, c1, conc0] =>
           let t ← ctx.get "temperature"
